@@ -63,6 +63,8 @@ type qgen struct {
 	aliasSeq int
 	curFrag  int  // index of the fragment whose body is being generated, -1 in operations
 	forceAl  bool // alias every field (fragment bodies), avoids accidental conflicts with the spreading selection set
+	// variables whose JSON value the document's generator decided itself (name, JSON text)
+	fixedVars [][2]string
 }
 
 // families of hostile constructs; a case enables a few of them so that most
@@ -909,6 +911,17 @@ func genCase(r *rand.Rand, i int, zoo, gw *schemaDesc) *gcase {
 			}
 		}
 	}
+	if !conflict && r.Intn(100) < 12 {
+		// a valid document around one mergeable repeat: a response key selected
+		// several times with equal arguments of composite JSON shapes
+		if doc, ok := repeatDoc(g); ok {
+			c.Query, conflict = doc, true
+			if r.Intn(100) < 5 {
+				g.feat("bytes:mutated_query")
+				c.Query = mutateBytes(r, c.Query)
+			}
+		}
+	}
 	if !conflict {
 		c.Query = g.document()
 		if r.Intn(100) < 25 {
@@ -919,6 +932,13 @@ func genCase(r *rand.Rand, i int, zoo, gw *schemaDesc) *gcase {
 
 	// variables
 	switch roll := r.Intn(100); {
+	case len(g.fixedVars) > 0 && roll < 85:
+		var parts []string
+		for _, kv := range g.fixedVars {
+			parts = append(parts, strconv.Quote(kv[0])+":"+kv[1])
+		}
+		c.VarsJSON = "{" + strings.Join(parts, ",") + "}"
+		g.feat("vars:supplied")
 	case roll < 25:
 		c.VarsJSON = "null"
 		if r.Intn(2) == 0 {
